@@ -81,6 +81,8 @@ theorem denote_sub_all {g : Graph} {vh : List Nat} (ctx : Ctx g vh) :
     intro hr p hp
     obtain ⟨⟨y, hy⟩, hh, _⟩ := hp
     exact all_trans (ih hr y hy) (hh y hy)
+  | mergePoint x ih => intro _ p hp; exact hp.2.1.1
+  | forks => intro _ p hp; exact hp.1
   | latest x n ih => intro hr p hp; exact ih hr p hp.1
   | coalesce a b iha ihb =>
     intro hr p hp
@@ -130,6 +132,7 @@ theorem bottomUp_sound {g : Graph} {vh : List Nat} {F : Expr → Option Expr} (h
   | visibleHeads => intro hr; rw [bottomUp]; exact local_finish hL ⟨hr, rfl⟩
   | visibleHeadsOrReferenced => intro hr; rw [bottomUp]; exact local_finish hL ⟨hr, rfl⟩
   | root => intro hr; rw [bottomUp]; exact local_finish hL ⟨hr, rfl⟩
+  | forks => intro hr; rw [bottomUp]; exact local_finish hL ⟨hr, rfl⟩
   | commits l => intro hr; rw [bottomUp]; exact local_finish hL ⟨hr, rfl⟩
   | ancestors h lo hi fp ih =>
     intro hr
@@ -184,6 +187,11 @@ theorem bottomUp_sound {g : Graph} {vh : List Nat} {F : Expr → Option Expr} (h
     rw [bottomUp]
     exact local_finish hL ⟨a, by simp only [denote, b]⟩
   | latest x n ih =>
+    intro hr
+    obtain ⟨a, b⟩ := ih hr
+    rw [bottomUp]
+    exact local_finish hL ⟨a, by simp only [denote, b]⟩
+  | mergePoint x ih =>
     intro hr
     obtain ⟨a, b⟩ := ih hr
     rw [bottomUp]
